@@ -21,7 +21,7 @@ def corr_sims(scs, variant=None, show_exec=False):
     res = []
     for i, sc in enumerate(scs):
         m = out.get("s%d" % i, ["<no model output>"])
-        mcmp = [l for l in m if not l.startswith("exec ")] if show_exec else m
+        mcmp = [l for l in m if not l.startswith(("exec ", "sched "))] if show_exec else m
         res.append({"sc": sc, "impl": impl[i][0], "model": m, "draws": impl[i][1],
                     "diff": first_diff(impl[i][0], mcmp)})
     return res
